@@ -70,6 +70,15 @@ def judge(run: Run, case: dict, res: dict, stats):
         die(f"C09: concretiser/harness failure on {cid}:\n{res['error']}")
     if res.get("runtime") is not None and case["kind"] != "root" and res["runtime"] != (case.get("guard", "none") == "none"):
         die(f"C09: concretisation of {cid}: runtime={res['runtime']} but the descriptor's guard is {case.get('guard')}")
+    dref = res.get("docref")
+    if dref:
+        if not dref["loaded_ok"]:
+            die(f"C09: the docstring of {cid} was loaded as {dref['got']!r}, inspect.cleandoc says {dref['want']!r}")
+        mj = case["full"]
+        for nm in (res["layout"]["names"] if not case["raised"] else ()):
+            mj = mj["f"]["members"]["f"][nm if nm in mj["f"]["members"]["f"] else case["mname"]]
+        if not case["raised"] and (mj["f"]["docstring"]["f"]["value"]["v"] == "fix") != dref["fixpoint"]:
+            die(f"C09: Serde!CleanedOnce({case['dtext']}) disagrees with inspect.cleandoc on {dref['want']!r}")
     run.replayed()
     run.evaluated()
     run.nontrivial_case(json.dumps(cid, sort_keys=True))
